@@ -50,7 +50,7 @@ def compare_runs(spec: dict, runs: list[dict]):
 class C05(Property):
     pid = "C05"
     title = "Workflow results do not depend on the interleaving"
-    lean_targets = ["SFV.Model.Exec", "SFV.Model.LoopComb", "SFV.Gen.StepGuards", "SFV.Props.C05", "SFV.Props.C05Steps", "SFV.Props.C05Op"]
+    lean_targets = ["SFV.Model.Exec", "SFV.Model.LoopComb", "SFV.Model.LoopNet", "SFV.Gen.StepGuards", "SFV.Props.C05", "SFV.Props.C05Steps", "SFV.Props.C05Op"]
     props_files = ["SFV/Props/C05.lean", "SFV/Props/C05Steps.lean", "SFV/Props/C05Op.lean"]
     drivers = ["Drivers/Net.lean"]
     translators = []
